@@ -69,6 +69,21 @@ func c04Mating(c *Ctx, f *Family, r *rand.Rand) {
 		s.Id = f.newId()
 		b = buildFromSnap(s) // mating with an exact (independently built) duplicate
 		c.Count("pairs.duplicate", 1)
+	case 2:
+		// a sibling whose weights were tuned by hand (or by a learning rule of the application): the weights differ from the
+		// other parent's, the mutation numbers - which only the library's own weight mutation updates - do not
+		s := snapGenome(a)
+		s.Id = f.newId()
+		for i := range s.Genes {
+			if r.Intn(3) != 0 {
+				s.Genes[i].W = fbits(bitsf(s.Genes[i].W) + r.NormFloat64())
+			}
+			if r.Intn(4) == 0 {
+				s.Genes[i].En = !s.Genes[i].En
+			}
+		}
+		b = buildFromSnap(s)
+		c.Count("pairs.sibling_with_hand_tuned_weights", 1)
 	}
 	// two different parents may carry the same genome id (every species numbers its babies from zero)
 	if a != b && r.Intn(4) == 0 {
